@@ -9,7 +9,7 @@ PROP_FILE = "Properties/C10.v"
 
 
 # ------------------------------------------------------------------ cas family -> Coq terms of CAS.Model / Run.C10
-ERRS = {"EGraph", "ECAConfigIndex", "EActiveRoots", "ERootID", "ENoSecret", "ENoAccessor", "ESecretImmutable",
+ERRS = {"EGraph", "ECAConfigIndex", "EActiveRoots", "EActiveReplaced", "ERootID", "ENoSecret", "ENoAccessor", "ESecretImmutable",
         "EFGNoStatus", "EFGNoPolicy"}
 
 
